@@ -19,6 +19,7 @@ import CaddyModel.C19.WildLemmas
 import CaddyModel.C19.ClientAuth
 import CaddyModel.C19.Caddyfile
 import CaddyModel.Gen.Glue
+import CaddyModel.C19.Quic
 
 namespace CaddyModel.C19
 
@@ -525,6 +526,59 @@ theorem strict_default_order_matches_source :
 
 example : calledBefore "b" "a" ["a", "b"] = false ∧ calledBefore "a" "c" ["a", "b"] = false ∧
     calledBefore "a" "b" ["a", "b"] = true := by decide
+
+/-! ## E3. HTTP/3: which config's policy list a QUIC ClientHello is matched against
+
+The QUIC listener outlives config reloads; `sharedQUICState` decides whose `GetConfigForClient`
+(whose first-match loop) answers.  `Quic.lean` models it as a state machine over reload histories;
+the harness drives the real `ListenQUIC` / `Close` through such histories and asks with real QUIC
+handshakes which config answers. -/
+
+theorem reloadsFrom_run (n : Nat) : ∀ (k : Nat) (used : List Nat), (∀ u ∈ used, u ≤ k) →
+    qrun allWrapped ⟨1, [k], k, [k]⟩ used (reloadsFrom k n) =
+      some (⟨1, [k + n], k + n, [k + n]⟩, reloadAnswersFrom k n) := by
+  induction n with
+  | zero => intro k used _; simp [reloadsFrom, qrun, reloadAnswersFrom]
+  | succ n ih =>
+    intro k used hu
+    have hnot : used.contains (k + 1) = false := by
+      cases h : used.contains (k + 1) with
+      | false => rfl
+      | true =>
+        have := hu (k + 1) (by simpa using h)
+        omega
+    have hmem : ¬ (k + 1 ∈ used) := by simpa using hnot
+    have hk : ¬ (k + 1 = k) := by omega
+    have hk' : ¬ (k = k + 1) := by omega
+    have ih' := ih (k + 1) ((k + 1) :: used) (by
+      intro u hu'
+      rcases List.mem_cons.mp hu' with e | e
+      · omega
+      · have := hu u e; omega)
+    have e : k + 1 + n = k + (n + 1) := by omega
+    rw [e] at ih'
+    simp [reloadsFrom, qrun, qstep, hnot, hmem, openConf, closeConf, removeConf, allWrapped, reloadAnswersFrom,
+      hk, hk', List.erase_cons, ih']
+
+/-- **over HTTP/3 the current config's policies are consulted**: through any number of reloads,
+    a ClientHello that arrives after a reload has completed is answered by the NEWEST config, one
+    that arrives while old and new server both run by the old one (which is still serving), and
+    at the end exactly the newest config is registered and active. -/
+theorem quic_reloads_consult_newest (n : Nat) :
+    qrun allWrapped QState.init [] (reloads n) =
+      some (⟨1, [1 + n], 1 + n, [1 + n]⟩, some 1 :: reloadAnswersFrom 1 n) := by
+  have h := reloadsFrom_run n 1 [1] (by intro u hu; simp at hu; omega)
+  simp [reloads, qrun, qstep, openConf, QState.init, h]
+
+/-- … hence the policy chosen for a QUIC ClientHello after `n` reloads is the first match of the
+    CURRENT config's policy list (composition with section B) -/
+theorem quic_first_match_of_current_config (n : Nat) (cfgs : Nat → List Policy) (h : Hello)
+    (s : QState) (answers : List (Option Nat))
+    (hr : qrun allWrapped QState.init [] (reloads n) = some (s, answers)) :
+    choose false (cfgs s.active) h = firstMatch (cfgs (1 + n)) h := by
+  rw [quic_reloads_consult_newest n] at hr
+  cases hr
+  exact first_match_dead_index _ _
 
 /-! ## F. Caddyfile glue: `tls { client_auth … }` and `servers { strict_sni_host … }` -/
 
